@@ -67,6 +67,15 @@ func verifArbitraryV2(label string) *ChannelStateV2 {
 	}
 	if zz.Bool(label + ".hasStages") {
 		old.Stages = &datatransfer.ChannelStages{}
+		// the execution trace: 0..2 stages with arbitrary names (a stage may well be named after
+		// the record's status, deprecated or not) and one log line each
+		for i, n := 0, zz.Choice(label+".nStages", 3); i < n; i++ {
+			old.Stages.Stages = append(old.Stages.Stages, &datatransfer.ChannelStage{
+				Name:        zz.String(label + ".stage.Name"),
+				Description: zz.String(label + ".stage.Description"),
+				Logs:        []*datatransfer.Log{{Log: zz.String(label + ".stage.Log")}},
+			})
+		}
 	}
 	return old
 }
@@ -88,6 +97,13 @@ func VerifC13_Migrate2To3() {
 func verifCheckMigration(migrate func(*ChannelStateV2) (*internal.ChannelState, error)) {
 	old := verifArbitraryV2("old")
 	src := verifCopyV2(old) // the stored value, to detect a migration that edits its input
+	// the trace is shared by pointer: snapshot what it says
+	var stageNames, stageDescs, stageLogs []string
+	if old.Stages != nil {
+		for _, st := range old.Stages.Stages {
+			stageNames, stageDescs, stageLogs = append(stageNames, st.Name), append(stageDescs, st.Description), append(stageLogs, st.Logs[0].Log)
+		}
+	}
 
 	got, err := migrate(old)
 	zz.Assert(err == nil, "migration of a stored record never fails")
@@ -115,6 +131,16 @@ func verifCheckMigration(migrate func(*ChannelStateV2) (*internal.ChannelState, 
 	zz.Assert(got.DataLimit == src.DataLimit, "DataLimit preserved")
 	zz.Assert(got.RequiresFinalization == src.RequiresFinalization, "RequiresFinalization preserved")
 	zz.Assert(got.Stages == src.Stages, "Stages preserved (same object, nil stays nil)")
+	if got.Stages != nil {
+		zz.Assert(len(got.Stages.Stages) == len(stageNames), "number of stages preserved")
+		for i, st := range got.Stages.Stages {
+			zz.Assert(st != nil && st.Name == stageNames[i] && st.Description == stageDescs[i] && len(st.Logs) == 1 && st.Logs[0].Log == stageLogs[i],
+				"every stage of the trace keeps its name, description and log")
+		}
+		if len(stageNames) == 2 {
+			zz.Reach("trace with two stages")
+		}
+	}
 	// --- vouchers and results, element-wise
 	zz.Assert(len(got.Vouchers) == len(src.Vouchers), "number of vouchers preserved")
 	for i := range src.Vouchers {
